@@ -133,9 +133,6 @@ def run_and_validate(c, scripts, name, vacuity=None, bulk=False):
                     except OSError:
                         pass
     c.cov["stages"]["RUN:" + name] = c.cov["stages"].pop("RUN:c13_import")
-    for k, least in (vacuity or {}).items():
-        if s.get(k, 0) < least:
-            raise vlib.ToolError(f"RUN {name}: vacuity -- {k} = {s.get(k, 0)} < {least}")
     if s.get("predicted_mismatch", 0):
         for r in vlib.read_ndjson(tp):
             if r.get("ev") == "Import" and isinstance(r.get("predicted"), dict):
@@ -152,6 +149,12 @@ def run_and_validate(c, scripts, name, vacuity=None, bulk=False):
         if bad:
             rp = vlib.save_replay(PROP, name + f".run{rid}.script.ndjson", content=json.dumps(bad[0]) + "\n")
             vlib.log(f"[{PROP}]   script of the offending run: {rp}")
+    # vacuity guards on what the run exercised come AFTER the validation: a change to the code under test that
+    # makes the counters drop (e.g. roll-backs no longer delivered) is a rejected trace first, not a tool error
+    if r["accepted"]:
+        for k, least in (vacuity or {}).items():
+            if s.get(k, 0) < least:
+                raise vlib.ToolError(f"RUN {name}: vacuity -- {k} = {s.get(k, 0)} < {least}")
     return s, tp
 
 
